@@ -501,6 +501,32 @@ def mk_extract(L, lo, hi, look_ahead, whitespace):
             'functions': ['emmet.math_expression.extract.extract', 'number']}
 
 
+def mk_extract_history(L):
+    """a call with explicit options followed by a default call: the second must behave as documented defaults"""
+    from emmet.math_expression import extract
+    dflt = mk_extract(L, 0, 128, True, True)['fn']
+
+    def h(text: str, pos: int, la: bool, ws: bool):
+        if not in_partition(text, L, 0, 128) or not (0 <= pos <= len(text)):
+            return 'skip'
+        extract(text, pos, {'lookAhead': la, 'whitespace': ws})
+        r1 = extract(text, pos)
+        r2 = extract(text, pos, {'lookAhead': True, 'whitespace': True})
+        return True if r1 == r2 else 'default_call_depends_on_earlier_options'
+
+    def twin(text: str, pos: int, la: bool, ws: bool):
+        if not in_partition(text, L, 0, 128) or not (0 <= pos <= len(text)):
+            return 'skip'
+        r1 = extract(text, pos, {'lookAhead': la, 'whitespace': ws})
+        r2 = extract(text, pos)
+        return True if r1 == r2 else 'twin'
+    return {'fn': h, 'twin': twin if L >= 2 else None,
+            'witnesses': [{'text': '1)'[:L], 'pos': min(1, L), 'la': False, 'ws': False}],
+            'assumptions': ['history: extract(text,pos,{lookAhead,whitespace}) with free booleans, then extract(text,pos) with '
+                            'defaults; text ASCII len==%d, 0<=pos<=len' % L],
+            'functions': ['emmet.math_expression.extract.extract (option handling)']}
+
+
 def jobs(tier):
     q = tier == 'quick'
     out = []
@@ -529,4 +555,7 @@ def jobs(tier):
                 out.append(Job('C19-c/extract/la=%d,ws=%d/len=%d,c0=[%d,%d)' % (la, wsp, L, lo, hi),
                                'vf.props.c19:mk_extract', dict(L=L, lo=lo, hi=hi, look_ahead=la, whitespace=wsp),
                                bound='ASCII len=%d, 0<=pos<=len' % L, budget=300 if q else 1500, weight=20 ** L))
+    for L in range(0, n + 1):
+        out.append(Job('C19-c/extract-history/len=%d' % L, 'vf.props.c19:mk_extract_history', dict(L=L), shape='W',
+                       bound='ASCII len=%d' % L, budget=900 if q else 3000, weight=25 ** L))
     return out
